@@ -221,8 +221,12 @@ theorem nodupB_sound : ∀ l, nodupB l = true → l.Nodup
 theorem unit_names_distinct : (Gen.table.all fun q => nodupB (q.units.map fun u => u.name.bytes)) = true := by
   decide +kernel
 
-/-- … so for the SI tables the statement needs no hypothesis: for every declared quantity and every position -/
-theorem src_units_enum_labels_si (q : QuantityDecl) (hq : q ∈ Gen.table) (i : Nat) (hi : i < q.units.length) :
+/-- for **any** table of quantity declarations whose unit identifiers are pairwise distinct within each quantity
+    (the SI tables below, the harness's own system in C19): for every quantity and every position, the three
+    methods return the labels of that row of the table -/
+theorem src_units_enum_labels_table (tbl : List QuantityDecl)
+    (hd : (tbl.all fun q => nodupB (q.units.map fun u => u.name.bytes)) = true)
+    (q : QuantityDecl) (hq : q ∈ tbl) (i : Nat) (hi : i < q.units.length) :
     let names := q.units.map fun u => u.name.bytes
     let abbr := fun j => ((q.units[j]?).map (·.abbr.bytes)).getD []
     let sing := fun j => ((q.units[j]?).map (·.sing.bytes)).getD []
@@ -234,7 +238,7 @@ theorem src_units_enum_labels_si (q : QuantityDecl) (hq : q ∈ Gen.table) (i : 
     run (envUnits names abbr sing plur) quantity_inherent_Units_plural [variant names i] =
       (.val (.str (q.units[i].plur.bytes)), []) := by
   intro names abbr sing plur
-  have hnd : names.Nodup := nodupB_sound _ (List.all_eq_true.mp unit_names_distinct q hq)
+  have hnd : names.Nodup := nodupB_sound _ (List.all_eq_true.mp hd q hq)
   have hi' : i < names.length := by simpa [names] using hi
   have ha : abbr i = q.units[i].abbr.bytes := by simp [abbr, hi]
   have hs : sing i = q.units[i].sing.bytes := by simp [sing, hi]
@@ -242,6 +246,20 @@ theorem src_units_enum_labels_si (q : QuantityDecl) (hq : q ∈ Gen.table) (i : 
   rw [← ha, ← hs, ← hp]
   exact ⟨units_abbreviation_eq names abbr sing plur hnd i hi', units_singular_eq names abbr sing plur hnd i hi',
     units_plural_eq names abbr sing plur hnd i hi'⟩
+
+/-- … so for the SI tables the statement needs no hypothesis: for every declared quantity and every position -/
+theorem src_units_enum_labels_si (q : QuantityDecl) (hq : q ∈ Gen.table) (i : Nat) (hi : i < q.units.length) :
+    let names := q.units.map fun u => u.name.bytes
+    let abbr := fun j => ((q.units[j]?).map (·.abbr.bytes)).getD []
+    let sing := fun j => ((q.units[j]?).map (·.sing.bytes)).getD []
+    let plur := fun j => ((q.units[j]?).map (·.plur.bytes)).getD []
+    run (envUnits names abbr sing plur) quantity_inherent_Units_abbreviation [variant names i] =
+      (.val (.str (q.units[i].abbr.bytes)), []) ∧
+    run (envUnits names abbr sing plur) quantity_inherent_Units_singular [variant names i] =
+      (.val (.str (q.units[i].sing.bytes)), []) ∧
+    run (envUnits names abbr sing plur) quantity_inherent_Units_plural [variant names i] =
+      (.val (.str (q.units[i].plur.bytes)), []) :=
+  src_units_enum_labels_table Gen.table unit_names_distinct q hq i hi
 
 end SourceTieRx
 
